@@ -1,5 +1,6 @@
 import DmrVerif.Driver.Loop
+import DmrVerif.Driver.Vbptc
 
-/-! model driver for property C09 (stub: no operations registered yet) -/
+/-! model driver for property C09 -/
 
-def main : IO Unit := Dmr.Driver.runMain []
+def main : IO Unit := Dmr.Driver.runMain [Dmr.Driver.vbptcOp]
